@@ -159,10 +159,18 @@ structure Rec where
   body : Nat := 0
   deriving Repr, Inhabited
 
+/-- An informational status: `1xx` except `101 Switching Protocols`.  `WriteHeader` with such a status is not final
+in net/http (it is sent at once and the server keeps waiting for the final status); the harness's recorder ignores it. -/
+def informational (c : Nat) : Bool := decide (100 ≤ c) && decide (c ≤ 199) && c != 101
+
+/-- `WriteHeader`: an informational status leaves the recorder as it was (no status, no snapshot); any other status
+is final if it is the first one. -/
 def Rec.writeHeader (r : Rec) (code : Nat) : Rec :=
-  match r.code with
-  | some _ => r
-  | none => { r with code := some code, snap := some r.hdr }
+  if informational code then r
+  else
+    match r.code with
+    | some _ => r
+    | none => { r with code := some code, snap := some r.hdr }
 
 def Rec.write (r : Rec) (n : Nat) : Rec :=
   let r := r.writeHeader 200
@@ -179,20 +187,24 @@ def runGet : List Act → Rec → Rec
 
 /-- Run the same script through `headResponse{size, wrote}` (a HEAD): `Write` only counts and sets
 Content-Length on the live header map and fixes the status (D23 repair: a later `WriteHeader` is
-ignored, as it is for GET); everything else is forwarded. -/
+ignored, as it is for GET); everything else is forwarded.  `WriteHeader(c)` with `wrote = false` is
+forwarded and sets `wrote = !informational c` (D32 repair: `status < 100 || status > 199 || status == 101`);
+with `wrote = true` it does nothing. -/
 def runHead : List Act → Nat → Bool → Rec → Rec
   | [], _, _, r => r
   | .setHeader k v :: as, sz, wr, r => runHead as sz wr { r with hdr := r.hdr.set k v }
   | .addHeader k v :: as, sz, wr, r => runHead as sz wr { r with hdr := r.hdr.add k v }
   | .delHeader k :: as, sz, wr, r => runHead as sz wr { r with hdr := r.hdr.del k }
-  | .writeHeader c :: as, sz, wr, r => runHead as sz true (if wr then r else r.writeHeader c)
+  | .writeHeader c :: as, sz, wr, r =>
+    runHead as sz (if wr then true else !informational c) (if wr then r else r.writeHeader c)
   | .write n :: as, sz, _, r => runHead as (sz + n) true { r with hdr := r.hdr.set hContentLength (natToBytes (sz + n)) }
 
 /-- The recovery function of the harness (`WithRecovery(f)`, `f` records the value and writes status 500). -/
 def defaultRecActs : List Act := [.writeHeader 500]
 
 /-- `http.Error(w, text, code)`: deletes Content-Length, sets Content-Type and X-Content-Type-Options, writes the header
-and `text ++ "\n"`. The bundled options `WithStatusRecovery/WithWriteRecovery/WithLogRecovery/WithSLogRecovery(status, …)`
+and `text ++ "\n"`.  The status is whatever the option was configured with; an informational one (e.g. 103) is not
+final, so the `Write` that follows sends the implicit 200 (`Rec.writeHeader`, `Rec.write`). The bundled options `WithStatusRecovery/WithWriteRecovery/WithLogRecovery/WithSLogRecovery(status, …)`
 call it with `http.StatusText(status)`; `textLen` is the length of that text. -/
 def httpErrorActs (code textLen : Nat) : List Act :=
   [.delHeader hContentLength,
